@@ -43,7 +43,6 @@ class UIJson:
 
     def __init__(self, parameters: dict[str, Parameter | FormParameter]):
         self.__dict__["parameters"] = parameters
-        self._validations = SetDict()
         self.enforcers: EnforcerPool = EnforcerPool.from_validations(
             self.name, self.validations
         )
@@ -52,10 +51,11 @@ class UIJson:
     def validations(self):
         """Returns a dictionary of static and inferred validations."""
 
-        self._validations.update(self.dynamic_validations)
-        self._validations.update(self.static_validations)
+        validations = SetDict()
+        validations.update(self.dynamic_validations)
+        validations.update(self.static_validations)
 
-        return self._validations
+        return validations
 
     @property
     def dynamic_validations(self):
